@@ -447,13 +447,13 @@ def write_evidence(mod, tier, base, agg, wall, nviol, extra=None):
 
 
 # ---------------------------------------------------------------- top level
-def fresh_replay(prop, path, sig):
+def fresh_replay(prop, path, sig, timeout=600):
     """Re-execute a replay file in a fresh interpreter; True if it reproduces."""
     cmd = [sys.executable, "-B", os.path.join(VERIF, "bin", "check"), prop,
            "--replay", path, "--expect", sig]
     try:
-        p = subprocess.run(cmd, capture_output=True, text=True, timeout=600,
-                           errors="backslashreplace")
+        p = subprocess.run(cmd, capture_output=True, text=True,
+                           timeout=timeout, errors="backslashreplace")
     except subprocess.TimeoutExpired:
         return False, "timeout"
     return p.returncode == 1 and "REPRODUCED" in p.stdout, p.stdout[-2000:] + \
@@ -543,6 +543,27 @@ def check(mod, tier, base, nworkers, n_override=None):
         if detail:
             print(f"  detail: {str(detail)[:600]}")
         exit_code = 1
+    # a recorded finding that this batch did not happen to sample is shown
+    # from its committed replay file (fresh process); if that no longer
+    # reproduces, nothing is printed for it
+    for k in known.get("findings", []):
+        if k.get("property") != mod.PROP_ID or \
+                k["signature_re"] in printed_known or not k.get("replay"):
+            continue
+        kp = os.path.join(VERIF, k["replay"])
+        try:
+            with open(kp) as f:
+                ksig = json.load(f).get("signature")
+        except (OSError, ValueError):
+            continue
+        if not ksig or match_known({"findings": [k]}, mod.PROP_ID,
+                                   ksig) is None:
+            continue
+        ok, _ = fresh_replay(mod.PROP_ID, kp, ksig, timeout=120)
+        if ok:
+            printed_known.add(k["signature_re"])
+            print(f"KNOWN-FINDING: property={mod.PROP_ID} {k['what']} "
+                  f"[{ksig}; replayed from {k['replay']}]")
     wall = _now() - t0
     write_evidence(mod, tier, base, agg, wall, nviol, extra)
     zero = [k for k, v in (getattr(mod, "PROBES", None) or {}).items()
